@@ -15,17 +15,18 @@ EXPLANATION = ("(a) index-generic, ANY length: the element-wise window generator
                "pi symbolic). z3 decides w(i) = w(N-1-i) for all real N >= 2, i; that no denominator can vanish for INTEGER N >= 2 and "
                "0 <= i <= N-1 (sat = a concrete (N, i), replayed); w((N-1)/2) = 1; and max <= 1 for the cosine-sum windows through "
                "multiple-angle identities. (b) the factory is explored over all 29 names x {no argument, every documented, one undocumented "
-               "argument}: routing, aliases, rejection. (c) ENBW >= 1 for an ARBITRARY symbolic window (Cauchy-Schwarz) and Window.enbw / .N / .data agree with the factory.")
+               "argument}: routing, aliases, rejection. (c) ENBW >= 1 for an ARBITRARY symbolic window (Cauchy-Schwarz) and Window.enbw / .N / .data agree with the factory. (d) a Window object holding ARBITRARY positive symbolic samples still reports the same samples, length and ENBW after every sequence of read operations (compute_response with and without normalisation, response, frequencies, enbw, mean_square).")
 BOUNDS = {
     "quick": "(a) any N (index-generic) for rectangle, blackman, gaussian, cosine, lanczos, bartlett_hann, nuttall, blackman_nuttall, blackman_harris, bohman, "
-             "flattop, riesz, riemann, poisson, cauchy; (b) all 29 names, N in {1, 2, 7, 8}; (c) arbitrary w of length <= 4 (ENBW), Window class N in {7, 8}",
-    "thorough": "(b) N in 1..16 and 64; (c) length <= 6",
+             "flattop, riesz, riemann, poisson, cauchy; (b) all 29 names, N in {1, 2, 7, 8}; (c) arbitrary w of length <= 4 (ENBW), Window class N in {7, 8}; (d) n in {2, 3}, NFFT=4, all sequences of <= 2 read operations that start with compute_response",
+    "thorough": "(b) N in 1..16 and 64; (c) length <= 6; (d) n <= 4",
 }
 ASSUMPTIONS = ["floats modelled as exact reals; published window coefficients enter as exact rationals of their doubles",
                "cos/sin/exp/sinc uninterpreted with: cos even and 2pi-periodic, sin odd, sinc even, special values at multiples of pi/2, "
                "|cos|,|sin| <= 1, cos(k y) = T_k(cos y) (k = 2,3,4), exp monotone with exp(0)=1; pi symbolic in (3.14159265, 3.14159266)",
                "symmetry is posed over real N, i (stronger than integers); vanishing denominators over integers"]
-OUTSIDE = ["sample values of the library-provided windows (bartlett, hamming, hann, kaiser, chebwin are numpy/scipy code) and of the generators that "
+OUTSIDE = ["the lazily computed response of a Window object (NFFT=2048) on symbolic samples - it is read at concrete samples for all 29 names in (b)",
+           "sample values of the library-provided windows (bartlett, hamming, hann, kaiser, chebwin are numpy/scipy code) and of the generators that "
            "build their output with where/concatenate/loops over range(N) (tukey, parzen, taylor): only their routing, length and finiteness are checked, at concrete N",
            "max <= 1 for the non-polynomial windows (gaussian, poisson, cauchy, lanczos, bohman, riemann): monotonicity facts of exp/sinc beyond the axioms listed"]
 BUDGET = {"quick": 900, "thorough": 3400}
@@ -343,6 +344,14 @@ def case_factory(h, name, N):
     h.claim_true("Window.N", obj.N == N)
     h.claim_true("Window.data = factory", bool(np.array_equal(np.asarray(obj.data), np.asarray(w), equal_nan=True)))
     if np.all(np.isfinite(np.asarray(w, dtype=float))) and float(np.sum(w)) != 0:
+        # reading the (lazily computed) response, the axis and the derived quantities leaves the samples alone
+        _ = obj.response
+        _ = obj.frequencies
+        _ = obj.mean_square
+        obj.compute_response(NFFT=64, norm=True)
+        h.claim_true("Window.data = factory after reading response / frequencies / mean_square",
+                     bool(np.array_equal(np.asarray(obj.data), np.asarray(w), equal_nan=True)) and obj.N == N)
+    if np.all(np.isfinite(np.asarray(w, dtype=float))) and float(np.sum(w)) != 0:
         ww = np.asarray(w, dtype=float)
         h.claim_true("Window.enbw = N sum w^2/(sum w)^2", bool(abs(obj.enbw - N * float(np.sum(ww ** 2)) / float(np.sum(ww)) ** 2) <= 1e-9 * abs(obj.enbw)))
         if N >= 3:
@@ -380,6 +389,54 @@ def case_enbw(h, n):
     h.claim_le("enbw >= 1", 1, e)
 
 
+WOPS = ('compute(norm=True)', 'compute(norm=False)', 'response', 'frequencies', 'enbw', 'mean_square')
+
+
+def case_window_reads(h, n, seq):
+    """a Window object keeps reporting the same samples / length / ENBW whatever is read from it, in any order:
+    ARBITRARY positive samples are injected (private attribute), the read-only operations are run on them"""
+    S = sp()
+    W = _sys.modules['spectrum.window']
+    obj = S.Window(n, 'hamming')
+    w = h.real_vec('w', n)
+    for i in range(n):
+        h.assume(w[i] > 0, "w>0")
+    pristine = [w[i] for i in range(n)]
+    obj._Window__data = w
+    e0 = obj.enbw
+    saved = W.np
+    if h.is_sym():
+        from symx.loader import NumpyProxy
+        W.np = NumpyProxy()
+    try:
+        for op in seq:
+            if op == 'compute(norm=True)':
+                obj.compute_response(NFFT=4, norm=True)
+            elif op == 'compute(norm=False)':
+                obj.compute_response(NFFT=4, norm=False)
+            elif op == 'response':
+                if obj._Window__response is None:
+                    return          # the lazy default (NFFT=2048) is outside the symbolic bound
+                _ = obj.response
+            elif op == 'frequencies':
+                if obj._Window__response is None:
+                    return
+                _ = obj.frequencies
+            elif op == 'enbw':
+                _ = obj.enbw
+            elif op == 'mean_square':
+                _ = obj.mean_square
+    finally:
+        W.np = saved
+    d = obj.data
+    if len(d) != n or obj.N != n:
+        h.fail("Window length", "len(data)=%d N=%r after %s" % (len(d), obj.N, seq))
+        return
+    for i in range(n):
+        h.claim_eq("data[%d] unchanged after %s" % (i, ">".join(seq)), d[i], pristine[i])
+    h.claim_eq("enbw unchanged", obj.enbw, e0)
+
+
 def cases(tier, seed):
     q = tier == 'quick'
     out = []
@@ -395,4 +452,12 @@ def cases(tier, seed):
             out.append(Case("factory:%s:N=%d" % (name, N), case_factory, dict(name=name, N=N), timeout=30))
     for n in ((1, 2, 3, 4) if q else (1, 2, 3, 4, 5, 6)):
         out.append(Case("enbw:arbitrary-window:n=%d" % n, case_enbw, dict(n=n), timeout=120 if q else 900, feas_timeout=3))
+    import itertools
+    for n in ((2, 3) if q else (2, 3, 4)):
+        for ln in (1, 2):
+            for seq in itertools.product(WOPS, repeat=ln):
+                if not seq[0].startswith('compute'):
+                    continue        # the lazily computed response uses NFFT=2048: outside the symbolic bound
+                out.append(Case("window-object-reads:n=%d:%s" % (n, ">".join(seq)), case_window_reads, dict(n=n, seq=list(seq)),
+                                timeout=60 if q else 300, max_paths=24, feas_timeout=3, max_decisions=24))
     return out
